@@ -9,7 +9,17 @@ import common
 
 PROPERTY = "C01"
 LEAN_MODULE = "CrCube.Props.C01"
-THEOREMS = []  # filled below
+THEOREMS = [
+    "CrCube.C01.counts_faithful_2d",
+    "CrCube.C01.counts_faithful_3d",
+    "CrCube.C01.ucounts_faithful_2d",
+    "CrCube.C01.ucounts_faithful_3d",
+    "CrCube.C01.extent_is_valid_elements",
+    "CrCube.C01.missing_never_contributes",
+    "CrCube.C01.numeric_reports_payload",
+    "CrCube.C01.flat_payload_reshape",
+    "CrCube.C06.partition_restricts",
+]
 RULE = ("random designs (1-3 variables over cat/cat_date/datetime/text/binned/mr/ca, missing categories at "
         "any payload position) x random surveys (0-40 respondents, dyadic weights incl. 0); a case is "
         "non-trivial when it has >=2 distinct positive cell values; distinct = distinct (kinds, raw counts) key")
